@@ -391,7 +391,7 @@ type lifeCut struct {
 
 // lifeBehaviour is what the peer does on one TCP connection.
 type lifeBehaviour struct {
-	Kind string  `json:"kind"` // serve | cut | stallSelect | rejectSelect | selectStatus1Hold | stallMidFrame | stallFrameSel | stallLinktest | stallRead | noSelect
+	Kind string  `json:"kind"` // serve | cut | stallSelect | rejectSelect | selectStatus1Hold | deselectHold | stallMidFrame | stallFrameSel | stallLinktest | stallRead | noSelect
 	Cut  lifeCut `json:"cut"`
 }
 
@@ -544,6 +544,15 @@ func (p *lifePeer) run1() (why string) {
 			p.markFailed()
 			p.stall()
 			return "exit#6b"
+		}
+		if p.isSelected() && p.beh.Kind == "deselectHold" {
+			// the peer ends the session with Deselect.req and then goes silent with the socket open: the connection is back
+			// in NOT SELECTED and only the T7 dwell can rescue it (after seeded change C11g-1)
+			req := lifeFrame{Session: 0xFFFF, SType: lifeSTDeselectReq, Sys: [4]byte{0x7d, 0, 0, 1}}.bytes()
+			_, _ = p.conn.Write(req)
+			p.markFailed()
+			_, _ = io.Copy(io.Discard, p.conn)
+			return "exit#6c"
 		}
 		if p.isSelected() && (p.beh.Kind == "stallRead" || p.beh.Kind == "stallReadShortCtx") {
 			// stop reading: the library's next write blocks until its write timeout
